@@ -113,6 +113,8 @@ EndClauses(s, r) ==
      \* the closing row: appended exactly when fewer than two RANGE rows were recorded (event rows of an extra-data
      \* request do not count: the plain request of the same shot gets the closing row, so must the extra-data one, C11)
      If(done /\ r.tail # (s.nRange < 2), "C03.TailRow") \cup
+     \* the closing row is the bare final state: a flag on it would repeat an event (or a range record) already reported
+     If(done /\ r.tail /\ Range(r.tailFl) # {}, "C15.ClosingRowFlagged") \cup
      If(r.nRows # s.nRows + (IF r.tail THEN 1 ELSE 0) + (IF s.phase = "raised" THEN 1 ELSE 0), "Trace.RowCount") \cup
      If(r.nIter # s.nIter, "Trace.IterCount")
 
